@@ -903,10 +903,10 @@ class sptensor:
 
             if self.nnz < other.nnz:
                 [subsSelf, valsSelf] = self.find()
-                valsOther = other[subsSelf]
+                valsOther = np.atleast_2d(other[subsSelf])
             else:
                 [subsOther, valsOther] = other.find()
-                valsSelf = self[subsOther]
+                valsSelf = np.atleast_2d(self[subsOther])
             return valsOther.transpose().dot(valsSelf).item()
 
         if isinstance(other, ttb.tensor):
